@@ -713,7 +713,12 @@ func (m *Matcher) inequal(fact interface{}, bs Bindings, v string) (bool, []Bind
 	if given {
 		c, is := fudge(x).(float64)
 		if !is {
-			return false, nil, nil
+			// The counterpart is bound to something that
+			// isn't a number, so it can't be the number
+			// we're looking at: a conflict.  (Not "this
+			// isn't an inequality": the caller would then
+			// compare the fact to the bound for equality.)
+			return true, nil, nil
 		}
 		if c != a {
 			return true, nil, nil
